@@ -783,6 +783,20 @@ func nameTaintS(v ssa.Value, sub Subst, depth int) (tainted bool, resolved bool)
 			}
 			return t, r
 		}
+		// a module helper that assembles the name from its arguments (e.g. qualifiedName(wallet, account))
+		if rvs, ok := HelperResults(x); ok && len(rvs) > 0 && depth < 6 {
+			t, r := false, true
+			for _, rv := range rvs {
+				ns := Subst{}
+				for a, b := range rv.Sub {
+					ns[a] = sub.Res(b)
+				}
+				t2, r2 := nameTaintS(rv.Val, ns, depth+2)
+				t = t || t2
+				r = r && r2
+			}
+			return t, r
+		}
 		return true, false
 	}
 	return true, false
